@@ -39,11 +39,22 @@ HEADER = "From Verif Require Import Gen.Src_Greedy Model.Greedy."
 
 
 # --------------------------------------------------------------------------- generation
+def pick_unit(rng, x):
+    """A unit code (0 us, 1 ms, 2 s) in which x microseconds is exact: the coarsest one for half of the values."""
+    exact = [u for u, f in ((0, 1), (1, 1000), (2, 10 ** 6)) if x % f == 0]
+    return exact[-1] if rng.random() < 0.5 else rng.choice(exact)
+
+
 def gen_case(rng, allow_f10=False, boundary=False, single=None, force_policy=None):
+    """All times in the case are MICROSECONDS; the *_u fields say in which EventTime unit the adapter expresses them.
+    scale 1: the small values; scale 500 / 500000: the same shapes in multiples of 0.5 ms / 0.5 s, so that e.g. 2 ms
+    and 1500 us (or 1 s and 1500 ms) meet in one invocation."""
     pol = force_policy if force_policy is not None else rng.choice([0, 0, 1, 1, 2, 2])
     preemptive = pol != 1 and rng.random() < 0.3
     enforce = pol != 2 and rng.random() < (0.8 if boundary else 0.45)
-    now = rng.choice([0, 3, 5, 10, 17])
+    scale = rng.choice([1, 1, 1, 500, 500, 500000])
+    now0 = rng.choice([0, 3, 5, 10, 17])
+    now = now0 * scale
     nres = rng.randint(1, 3)
     npools = rng.randint(1, 3)
     if single is None:
@@ -59,28 +70,53 @@ def gen_case(rng, allow_f10=False, boundary=False, single=None, force_policy=Non
     nresident = rng.choice([0, 0, 1, 1, 2, 3])
     if preemptive and not allow_f10 and nresident > 0:
         ngraphs = 1          # signature of known finding F10 kept out of the ordinary streams
+    same_rt = rng.randint(1, 6) if rng.random() < 0.35 else None     # heterogeneous demands, EQUAL runtimes
     tasks = []
-    dl_pool = [now + d for d in (-2, 0, 1, 2, 3, 3, 4, 5, 5, 8, 12)]
+    dl_pool = [now0 + d for d in (-2, 0, 1, 2, 3, 3, 4, 5, 5, 8, 12)]
     for i in range(ntasks + nresident):
         strats = []
         for _ in range(rng.choice([1, 1, 2, 2, 3])):
             names = rng.sample(range(nres), rng.choice([1, 1, 2]) if nres > 1 else 1)
-            strats.append({"runtime": rng.randint(1, 6), "req": [[n, rng.choice([0, 1, 1, 1, 2, 2, 3])] for n in names]})
+            strats.append({"runtime": same_rt or rng.randint(1, 6), "req": [[n, rng.choice([0, 1, 1, 1, 2, 2, 3])] for n in names]})
+        if rng.random() < 0.25:      # a FIRST strategy that can never fit (more than any worker owns), a later one may
+            strats.insert(0, {"runtime": same_rt or rng.randint(1, 6), "req": [[rng.randrange(nres), 50]]})
+            strats = strats[:3]
         fastest = min(s["runtime"] for s in strats)
         if boundary or rng.random() < 0.5:
-            deadline = now + fastest + rng.choice([-2, -1, 0, 0, 1, 1, 3, 6])
+            deadline = now0 + fastest + rng.choice([-2, -1, 0, 0, 1, 1, 3, 6])
         else:
             deadline = rng.choice(dl_pool)
-        t = {"graph": rng.randrange(ngraphs), "deadline": deadline, "release": rng.choice([0, now // 2, now, now]),
-             "strats": strats}
+        t = {"graph": rng.randrange(ngraphs), "deadline": deadline * scale,
+             "release": rng.choice([0, now0 // 2, now0, now0, rng.randint(0, now0)]) * scale, "strats": strats}
         if i >= ntasks:
             rt = max(s["runtime"] for s in strats)
             t["resident"] = {"pool": rng.randrange(3), "worker": rng.randrange(3), "strat": rng.randrange(3),
-                             "start": rng.randint(0, now), "remaining": rng.randint(1, rt)}
+                             "start": rng.randint(0, now0) * scale, "remaining": rng.randint(1, rt) * scale}
+        for s_ in strats:
+            s_["runtime"] *= scale
         tasks.append(t)
     rng.shuffle(tasks)
-    return {"policy": pol, "enforce": enforce, "preemptive": preemptive, "now": now, "pools": pools, "tasks": tasks,
+    case = {"policy": pol, "enforce": enforce, "preemptive": preemptive, "now": now, "pools": pools, "tasks": tasks,
             "rseed": rng.randrange(1 << 30)}
+    if scale > 1:
+        case["scale"] = scale
+        case["now_u"] = pick_unit(rng, now)
+        for t in tasks:
+            t["deadline_u"] = pick_unit(rng, t["deadline"])
+            t["release_u"] = pick_unit(rng, t["release"])
+            for s_ in t["strats"]:
+                s_["runtime_u"] = pick_unit(rng, s_["runtime"])
+            if "resident" in t:
+                t["resident"]["start_u"] = pick_unit(rng, t["resident"]["start"])
+                t["resident"]["remaining_u"] = pick_unit(rng, t["resident"]["remaining"])
+    return case
+
+
+def mixed_units(case):
+    us_ = {case.get("now_u", 0)}
+    for t in case["tasks"]:
+        us_ |= {t.get("deadline_u", 0), t.get("release_u", 0)} | {s.get("runtime_u", 0) for s in t["strats"]}
+    return len(us_) > 1
 
 
 def gen_case_ids(rng):
@@ -311,12 +347,15 @@ def py_mon_c13(case, r):
 def fallback_search(ctx, cases, impl, tag="ref"):
     """Something is broken (proof / translator / model evaluation): look for a concrete input on which the real
     policy departs from the documented one."""
-    for i, (c, r) in enumerate(zip(cases, impl)):
+    found = False
+    for i, (c, r) in enumerate(zip(cases, impl)):        # first a genuine inversion (all times compared in microseconds) ...
         if not py_mon_c13(c, r):
             ctx.violation("%s_inv%d" % (tag, i), {"stream": "S-greedy (python monitor, fallback)", "case": c, "implementation": r,
                                                   "what": "priority inversion: an unplaced task fits once only the placed tasks of "
                                                           "higher-or-equal documented priority are accounted for"})
-            return True
+            found = True
+            break
+    for i, (c, r) in enumerate(zip(cases, impl)):        # ... and the first departure from the documented policy
         ref, _ = ref_schedule(c, r)
         if ref != r["result"]:
             ctx.violation("%s_doc%d" % (tag, i), {"stream": "S-greedy (documented reference, fallback)", "case": c,
@@ -325,7 +364,7 @@ def fallback_search(ctx, cases, impl, tag="ref"):
                                                   "what": "the real %s policy departs from the documented one (order by the "
                                                           "documented key / admission rule / first fit)" % POL[c["policy"]]})
             return True
-    return False
+    return found
 
 
 # --------------------------------------------------------------------------- streams
@@ -433,14 +472,29 @@ def run(ctx):
         "`any` requests 0-3 on 1-2 names, deadlines/releases/slacks from small ranges so that ties are frequent, tasks spread "
         "over 1-3 graphs) -> real schedule() vs the model: decisions exactly, and final availability of the virtual pools; "
         "distinct = distinct case; non-trivial = >= 3 offered tasks and (a tie in the policy's key or a task not placed). "
+        "Times: a third of the cases uses multiples of 0.5 ms, a sixth multiples of 0.5 s, and there every deadline / release / "
+        "runtime / now is handed to the real classes in us, ms or s (the coarsest exact unit for half of the values), so that e.g. "
+        "2 ms and 1500 us meet in one invocation; the model and the documented-key reference work in exact microseconds. 35% of the "
+        "cases give all strategies ONE runtime with heterogeneous demands; 25% of the tasks get a first strategy that can never fit "
+        "(50 units) before strategies that may. "
         "Inputs with the signature of known finding F10 (preemptive, >= 2 graphs, a running task) are kept out. "
         "S-greedy-wl: the first 400 (quick) / 2000 cases again, decisions vs the same policy model instantiated with the shared "
         "worker model of C04 (Model/Res.v + Worker.v).")
     seen = set()
     nt = 0
     dist = {"by_policy": {p: 0 for p in POL}, "preemptive": 0, "enforce": 0, "single_worker_pools": 0, "with_unplaced": 0,
-            "with_cancel": 0, "with_key_tie": 0, "offered_ge3": 0}
+            "with_cancel": 0, "with_key_tie": 0, "offered_ge3": 0, "mixed_units": 0, "placed_with_later_strategy": 0,
+            "equal_runtimes_heterogeneous_demands": 0, "raw_magnitude_order_differs": 0}
     for c, r in zip(cases, impl):
+        dist["mixed_units"] += mixed_units(c)
+        rts = {s["runtime"] for t in c["tasks"] for s in t["strats"]}
+        reqs = {json.dumps(s["req"]) for t in c["tasks"] for s in t["strats"]}
+        dist["equal_runtimes_heterogeneous_demands"] += len(rts) == 1 and len(reqs) > 1
+        f = [1, 1000, 10 ** 6]
+        rel = [(t["release"], t["release"] // f[t.get("release_u", 0)]) for t in c["tasks"]]
+        dist["raw_magnitude_order_differs"] += any((a[0] < b[0]) != (a[1] < b[1]) for a in rel for b in rel)
+        if r["result"][0] == 0:
+            dist["placed_with_later_strategy"] += any(d[0] == 1 and d[3] > 0 for d in r["result"][1])
         dist["by_policy"][POL[c["policy"]]] += 1
         dist["preemptive"] += c["preemptive"]
         dist["enforce"] += c["enforce"]
